@@ -91,7 +91,7 @@ Example C05_nonvacuous :
   frag_code c05_schema [] [] c05_example 0 = 7%Z /\
   model_reload c05_schema [] [] c05_example 0 = spec_canon c05_example 0 /\
   model_counts c05_schema [] c05_example 0 [1; 2; 3; 5]%Z [7%Z] = SL [SL [SZ 3; SZ 2; SZ 1; SZ 1]; SL [SZ 3]]%Z.
-Proof. repeat split; vm_compute; reflexivity. Qed.
+Proof. vm_compute. repeat split. Qed.
 
 Print Assumptions C05_load_flush.
 Print Assumptions C05_reload.
